@@ -10,6 +10,7 @@ import (
 	"fmt"
 	"sort"
 	"strings"
+	"sync"
 	"testing"
 	"time"
 
@@ -117,6 +118,33 @@ type c19Cfg struct {
 	nrt  *nrtv1alpha1.NodeResourceTopology
 	node *corev1.Node
 	res  *mc.Result
+	// opts is what the plugin's own NodeResourceTopology handler makes of nrt (computed once, by that handler); it is
+	// installed into the fresh topology managers of the histories and restarts instead of re-parsing the same object
+	// thousands of times. Read-only from then on.
+	opts TopologyOptions
+
+	witMu      sync.Mutex
+	firstDepth map[string]int
+}
+
+// witness tells whether a violation of this class is reported in full for a history of this length. The BFS works
+// level by level and re-executes every reported violation several times; a class that was already reported for a
+// SHORTER history (e.g. a defect visible after a single bind shows in every later state) is only counted. Deterministic
+// per level, so the re-executions of a reported witness report it again.
+func (c *c19Cfg) witness(key string, depth int) bool {
+	c.witMu.Lock()
+	defer c.witMu.Unlock()
+	if c.firstDepth == nil {
+		c.firstDepth = map[string]int{}
+	}
+	fd, ok := c.firstDepth[key]
+	if ok && fd < depth {
+		return false
+	}
+	if !ok {
+		c.firstDepth[key] = depth
+	}
+	return true
 }
 
 func (c *c19Cfg) build() {
@@ -153,6 +181,12 @@ func (c *c19Cfg) build() {
 	c.node = &corev1.Node{ObjectMeta: metav1.ObjectMeta{Name: c.Node, Labels: map[string]string{}}, Status: corev1.NodeStatus{Capacity: rl, Allocatable: rl.DeepCopy()}}
 	for k, v := range c.NodeLabels {
 		c.node.Labels[k] = v
+	}
+	scratch := NewTopologyOptionsManager()
+	(&nodeResourceTopologyEventHandler{topologyManager: scratch}).OnAdd(nrt.DeepCopy(), true)
+	c.opts = scratch.GetTopologyOptions(c.Node)
+	if !c.opts.CPUTopology.IsValid() || len(c.opts.NUMANodeResources) != c.L.NumNodes {
+		panic("c19: the NodeResourceTopology fixture was not understood by the plugin's handler")
 	}
 }
 
@@ -259,7 +293,14 @@ func c19Managers(cfg *c19Cfg, strategy *Plugin, deliverTopology bool) (*resource
 	}
 	th := &nodeResourceTopologyEventHandler{topologyManager: tom}
 	if deliverTopology {
-		th.OnAdd(cfg.nrt.DeepCopy(), true)
+		if cfg.opts.CPUTopology == nil {
+			panic("c19: configuration not built")
+		}
+		tom.UpdateTopologyOptions(cfg.Node, func(o *TopologyOptions) {
+			keep := o.MaxRefCount // exactly what updateNodeResourceTopology does
+			*o = cfg.opts
+			o.MaxRefCount = keep
+		})
 	}
 	rm := &resourceManager{numaAllocateStrategy: GetDefaultNUMAAllocateStrategy(strategy.pluginArgs), topologyOptionsManager: tom, nodeAllocations: map[string]*NodeAllocation{}}
 	return rm, tom, th
